@@ -352,14 +352,43 @@ func checkC08(job *Job, res *Result) {
 func init() { checks["c03sched"] = checkC03Sched }
 
 func checkC03Sched(job *Job, res *Result) {
-	res.Rule = "SCHED: two connections (SET / SET, SET / GET, SET+GET / GET): every schedule with <= 2 preemptions; at each acknowledgement the log file as of that instant (= what a kill would leave) must hold the acknowledged write; distinct = distinct (scenario, order of commands in the log file, early-ack flag)"
+	res.Rule = "SCHED: RENAME / RENAMENX acknowledged while AOFSHRINK runs (one preemption), then a restart; two connections (SET / SET, SET / GET, SET+GET / GET): every schedule with <= 2 preemptions; at each acknowledgement the log file as of that instant (= what a kill would leave) must hold the acknowledged write; distinct = distinct (scenario, order of commands in the log file, early-ack flag)"
+	// a command acknowledged while the log is being rewritten survives the next restart: the
+	// rename scenarios of the rewrite explorer (C09), reported under C03
+	asC03 := func(o schedOut) schedOut {
+		if strings.HasPrefix(o.VSig, "C09/") {
+			o.VSig = "C03/acknowledged-during-rewrite:" + strings.TrimPrefix(o.VSig, "C09/")
+		}
+		return o
+	}
 	if job.Replay != nil {
 		replaySched(job, res, func(params []byte, sched []int) schedOut {
+			var probe struct {
+				Writers [][][]string `json:"writers"`
+			}
+			mustJSON(params, &probe)
+			if probe.Writers != nil {
+				var p9 c09Params
+				mustJSON(params, &p9)
+				return asC03(c09Run(job, p9, sched))
+			}
 			var p c08Params
 			mustJSON(params, &p)
 			return c08Run(job, p, sched)
 		})
 		return
+	}
+	for _, p9 := range c09SchedScenarios(job.Tier) {
+		p9 := p9
+		if p9.Name != "renamenx" && p9.Name != "rename-to-scanned-side" && p9.Name != "rename-to-unscanned-side" {
+			continue
+		}
+		sc := schedScenario{Name: "c03sched.rewrite." + p9.Name, Params: p9, Run: func(prefix []int) schedOut { return asC03(c09Run(job, p9, prefix)) }}
+		st := exploreSched(job, res, sc, 1)
+		res.Extra[sc.Name] = map[string]any{"execs": st.Execs, "outcomes": len(st.Outcomes), "max_choice_points": st.MaxPoints}
+		if res.EngineError != "" {
+			return
+		}
 	}
 	set := func(id string) []string { return []string{"SET", "k", id, "POINT", "1", "1"} }
 	get := []string{"GET", "k", "a"}
